@@ -113,6 +113,12 @@ CHECKS = {
    design="5 (C20), 4.10",
    note="inputs the checker rejects are not queried (the salvaged tree is not reachable through the API used); expected types come from the generator's monomorphic typing",
    technique="TLC-generated typed programs with known scopes and types + exhaustive cursor positions, records validated against the Editor.tla acceptor"),
+ "C19": dict(
+   level="exploration",
+   text="Thin use of the family: StdModels.tla defines the models (finite map ordered by key with insert / find / to_list; sort, filter, fold, append on sequences via SequencesExt / Folds; byte length and character boundaries of strings over a 4-code-point alphabet with UTF-8 lengths 1-4), TLC enumerates all operation sequences / inputs up to a bound, checks model-level laws and computes the expected results; every case runs through std.map, std.list, std.array, std.string. Derived Eq / Show and the JSON codec are exercised on seeded random algebraic values and records (round trip = identity).",
+   design="5 (C19), 4.10",
+   note="the derived Show parenthesises every constructor argument; renderings are compared modulo parentheses; JSON and derive cases come from a seeded generator, not from TLC",
+   technique="TLC enumeration with in-model expected results (StdModels.tla) + replay through the std library"),
 }
 NOT_BUILT = "check not built yet (work in progress; see DESIGN.md section 5)"
 NA = {}
